@@ -1358,7 +1358,9 @@ func rpDecode(t *testing.T) {
 		s, _ := NewStore(f)
 		model := map[string]map[string]string{}
 		for step := 0; step < 50; step++ {
-			cn := fmt.Sprintf("c%d", r.Intn(3))
+			// collection names are arbitrary strings: plain ones, and ones that JSON must escape (quote, backslash, control
+			// characters, DEL, non-ASCII, a code point beyond the BMP) -- the root record's JSON is what a decoder parses
+			cn := []string{"c0", "c1", "c2", "q\"uote\\", "soh\x01x", "del\x7f", "é\u2028", "\U0001F600"}[r.Intn(3)+3*int(seed%2)*(step%2)]
 			switch op := r.Intn(12); {
 			case op < 6:
 				if s.GetCollection(cn) == nil {
